@@ -3,6 +3,7 @@ package props
 import (
 	"bytes"
 	"context"
+	"encoding/hex"
 	"errors"
 	"fmt"
 	"io"
@@ -60,6 +61,15 @@ func genC11(r *rt.Rand, tier string, idx int) *world.Scenario {
 		sc.Engine, sc.Class = "tikv", "tikv-get-request-fault"
 		sc.Extra = map[string]int64{"tikv_get_fault": int64(1 + r.Intn(10))}
 	}
+	if idx%30 == 17 {
+		// TiKV acknowledges a transaction once its primary key is committed and commits the other keys in the
+		// background: here those later commit requests never arrive, so the keys stay locked until a reader
+		// resolves them - what is read afterwards must still be the whole batch (two regions: the keys of one
+		// batch live on different stores)
+		sc.Engine, sc.Class = "tikv", "tikv-secondary-commits-held"
+		sc.Extra = map[string]int64{"tikv_hold_secondary_commits": 1, "tikv_regions": 1}
+		sc.Parts = []string{hex.EncodeToString([]byte("k3"))}
+	}
 	if idx%300 == 77 || idx%300 == 177 {
 		// a batch larger than the engine takes in one transaction (Badger: ~105 000 entries or ~10 MB), ending
 		// in a condition that fails: all of it or nothing, whatever the adapter does about the size
@@ -114,8 +124,11 @@ func genC11(r *rt.Rand, tier string, idx int) *world.Scenario {
 						if old == "" || r.Chance(0.3) {
 							old = fmt.Sprintf("v%d", 1+r.Intn(vn+1))
 						}
+						if r.Chance(0.05) {
+							old = "" // an empty expectation: matches nothing that is stored, and never a missing key
+						}
 						v := val()
-						if guards && r.Chance(0.6) {
+						if guards && old != "" && r.Chance(0.6) {
 							v = old // a guard: the compare-and-swap rewrites the value it expects
 						}
 						parts = append(parts, "cas:"+bk+"="+v+"/"+old)
@@ -203,7 +216,9 @@ func c11Custom(t *testing.T, sc *world.Scenario, out *Outcome) {
 		out.Infra = err.Error()
 		return
 	}
-	defer w.CloseEngines()
+	if sc.Extra["tikv_hold_secondary_commits"] == 0 {
+		defer w.CloseEngines()
+	} // (else: the client's background lock resolvers may still be at work; the mock cluster is left to the collector)
 	var st storage.KvStorage = inner
 	if sc.MetricsKV {
 		st = kvmetrics.NewKvStorage(inner, world.NewRecMetrics(nil))
@@ -698,6 +713,9 @@ func c11Custom(t *testing.T, sc *world.Scenario, out *Outcome) {
 	}
 	// final: full scan == model (the harness' own scan is not to be faulted)
 	w.TiKVScanFaultArmed = false
+	if w.TiKVSecondaryCommitsHeld > 0 {
+		out.probe("tikv-secondary-commit-request-held")
+	}
 	it, err := st.Iter(ctx, []byte{0}, bytes.Repeat([]byte{0xff}, 8), 0, 0)
 	if err == nil {
 		got := map[string]string{}
